@@ -156,11 +156,13 @@ Owns(P, x, g) ==
       [] P = "C09" -> x.authed /\ ~x.perr /\
                       ((v \in {"KICK", "TOPIC", "INVITE"} /\ (IsSt(g) \/ IsOut(g)))
                        \/ (v = "LIST" /\ IsOut(g) /\ g.b = "322" /\ ~x.hidden)
-                       \/ (v = "JOIN" /\ IsOut(g) /\ g.b = "332"))
+                       \/ (v = "JOIN" /\ IsOut(g) /\ g.b \in {"332", "473"})
+                       \/ (v = "JOIN" /\ IsSt(g) /\ g.a = "users" /\ g.b = "invited"))      \* an invitation is one admission: used by the JOIN it admits, by nothing else
       [] P = "C10" -> x.authed /\ ~x.perr /\
                       ((v \in {"PRIVMSG", "NOTICE"} /\ IsOut(g) /\
                            (g.b \in {"404", "403", "401", "301"} \/ (g.a = "r" /\ x.restricted) \/ (v = "NOTICE" /\ ToSelf(g) /\ g.a # "r")))
-                       \/ (v = "AWAY" /\ (IsSt(g) \/ IsOut(g))))
+                       \/ (v = "AWAY" /\ (IsSt(g) \/ IsOut(g)))
+                       \/ (IsSt(g) /\ g.a = "chans" /\ g.b \in {"ban", "exc", "flags"}))   \* the restrictions themselves changed otherwise than specified
       [] P = "C11" -> \/ (g.t = "inv" /\ g.a = "wallops")
                       \/ (x.authed /\ ~x.perr /\ v \in {"OPER", "KILL", "DIE", "SQUIT", "WALLOPS", "STATS"} /\ (IsSt(g) \/ IsOut(g)))
                       \/ (x.authed /\ ~x.perr /\ v = "MODE" /\ ~x.modeChan /\
